@@ -44,7 +44,9 @@ def one(args):
                 res["tests"] = "pass" if r.returncode == 0 else ("compile-error" if re.search(r"^error(\[E\d+\])?: (?!test failed)", r.stdout, re.M) and not fails else "killed-by-tests: " + ",".join(fails[:4]))
             except subprocess.TimeoutExpired:
                 res["tests"] = "killed-by-tests: hang (>420 s)"
-        props = sorted({meta.get("property")} | {e.split(".")[0] for e in (meta.get("expect") or []) if re.match(r"^C\d\d", e)})
+        # all twenty checks: the expected one(s) must fire; what else fires is recorded so that alarms of properties the
+        # mutant does not break can be reviewed
+        props = ["C%02d" % i for i in range(1, 21)]
         fired = {}
         for p in props:
             rr = subprocess.run([os.path.join(VERIF, "check"), p, "--repo", d], cwd=VERIF, stdout=subprocess.PIPE, stderr=subprocess.STDOUT, text=True)
